@@ -19,7 +19,7 @@ func propC16() Property {
 		Explanation: "Sibling agreement of every in-module MessageStore implementation (memory, file, sql, mongo — the last is analysed although it cannot be run offline). " +
 			"R1 write-through: a persistent store updates its cache counter only on the nil-error edge of the medium write of the same value and the same direction. R2 location agreement: the medium location written for the outbound (inbound) counter is the one the loader feeds back into the outbound (inbound) cache counter — file handle ↔ file name pairing, SQL column ↔ scan position, document field; sender and target never cross. " +
 			"R3 range: the iteration callback runs only for begin <= seq <= end in ascending order and its error propagates. R4 reset/refresh shape: reset empties the cache, deletes the stored messages and persists fresh counters/creation time; refresh resets the cache and reloads. R5: Incr* = Set*(cache.Next*()+1) of the same direction (memory: Incr/Set/Next agree on one field per direction, Next = field+1, Set stores next-1). " +
-			"R6: save-and-increment = save (nil error) then increment of the outbound counter, or one transaction. R7: no error from the medium is dropped (tabulated: deferred Close/Rollback). R8 (shared with C17): the file store rewrites a counter from offset 0 without truncating, so the text must have a fixed width; with a variable width a shorter number leaves the tail of a longer one on disk and a refreshed or reopened store reads a different counter than the running one reports. R9: a query cursor (sql.Rows, mongo Cursor) is closed — directly or by defer — on every return after the query succeeded, including the one taken when the callback aborts. R10 (shared with C17): the file store appends a message at the end of the body file and indexes that offset, so a save after a refresh or reopen does not overwrite earlier messages. R11: each optional SessionID part of the file-name prefix is appended under an emptiness test of that same field. R12 (shared with C17): the SQL store updates its cached counter only after Commit returned nil.",
+			"R6: save-and-increment = save (nil error) then increment of the outbound counter, or one transaction. R7: no error from the medium is dropped (tabulated: deferred Close/Rollback). R8 (shared with C17): the file store rewrites a counter from offset 0 without truncating, so the text must have a fixed width; with a variable width a shorter number leaves the tail of a longer one on disk and a refreshed or reopened store reads a different counter than the running one reports. R9: a query cursor (sql.Rows, mongo Cursor) is closed — directly or by defer — on every return after the query succeeded, including the one taken when the callback aborts. R10 (shared with C17): the file store appends a message at the end of the body file and indexes that offset, so a save after a refresh or reopen does not overwrite earlier messages. R11: each optional SessionID part of the file-name prefix is appended under an emptiness test of that same field. R12 (shared with C17): the SQL store updates its cached counter only after Commit returned nil. R13: the set of file names handed to the remover in Reset covers the set handed to the opener; the in-memory iteration leaves its loop early only with the callback's error.",
 		NotDecided: "equivalence with the abstract store over operation histories, byte-identity of stored messages, durability (C17), behaviour of the database drivers.",
 		Rules: []RuleDef{
 			{ID: "C16-R1", Desc: "write-through: cache after medium, same value, same direction", Min: 6, Run: c16R1},
@@ -34,6 +34,7 @@ func propC16() Property {
 			{ID: "C16-R10", Desc: "file store: messages are appended at the end and indexed where they were written (= C17-R2)", Min: 3, Run: c17R2},
 			{ID: "C16-R11", Desc: "file-name prefix: each optional part under its own emptiness test", Min: 3, Run: c16R11},
 			{ID: "C16-R12", Desc: "sql: cache updated only after Commit returned nil (= C17-R4)", Min: 4, Run: c17R4},
+			{ID: "C16-R13", Desc: "file Reset removes every file the store opens; memory iteration skips holes", Min: 2, Run: c16R13},
 		},
 	}
 }
@@ -247,6 +248,36 @@ func c16R1(c *Ctx) {
 					}
 					if passes && d.Implies(nilErrAtomFor(mc.(ssa.Instruction))) {
 						guarded = true
+					}
+				}
+				if !guarded && vo.Kind == "call" && vo.Callee != nil && p.InModule(vo.Callee) && vo.CallI != nil {
+					// the value is what a helper wrote to the medium and handed back: v, err := helper(tx, …); the
+					// helper passes the value it returns to a medium call, and this call is on its nil-error edge
+					if hc, ok := vo.CallI.(ssa.CallInstruction); ok && p.isMediumCall(s, hc) && d.Implies(nilErrAtomFor(vo.CallI)) {
+						h := vo.Callee
+						for _, b := range h.Blocks {
+							r, isRet := b.Instrs[len(b.Instrs)-1].(*ssa.Return)
+							if !isRet || vo.Res >= len(r.Results) {
+								continue
+							}
+							rv := p.Origin(r.Results[vo.Res]).String()
+							for _, mc := range Calls(h) {
+								for _, a := range mc.Common().Args {
+									if sl, ok := a.(*ssa.Slice); ok {
+										if al, ok := sl.X.(*ssa.Alloc); ok && al.Comment == "varargs" {
+											for _, e := range varargsElems(al) {
+												if e != nil && p.Origin(e).String() == rv {
+													guarded = true
+												}
+											}
+										}
+									}
+									if p.Origin(a).String() == rv {
+										guarded = true
+									}
+								}
+							}
+						}
 					}
 				}
 				c.Check(okDir && guarded, name, pos, "write-through:"+m, "cache."+m+"(v) only after the medium accepted v ("+tn+")",
